@@ -126,7 +126,8 @@ class _Renamer(ast.NodeTransformer):
 
 
 def canon_lines(func: ast.AST, rename: bool = True) -> list[str]:
-    f = copy.deepcopy(func)
+    # re-parse instead of deepcopy: model nodes carry _parent links that would drag the whole module along
+    f = ast.parse(ast.unparse(func)).body[0]
     f.decorator_list = []
     f.returns = None
     for a in f.args.posonlyargs + f.args.args + f.args.kwonlyargs + ([f.args.vararg] if f.args.vararg else []) + ([f.args.kwarg] if f.args.kwarg else []):
